@@ -1,6 +1,216 @@
 package h
 
-// DrvMain is the entry point of the child binary for property checks.
-func DrvMain(prop string, seed uint64, from, cases int, tier, out, replay string) int {
-	return 2
+import (
+	"encoding/json"
+	"fmt"
+	"os"
+	"path/filepath"
+	"sort"
+	"strconv"
+)
+
+// Ctx is the context of one case of a property check.
+type Ctx struct {
+	Prop, Tier, Flavor, Mode string
+	Seed                     uint64
+	Case                     int
+	R                        *Rng
+	Cov                      *Cov
+	viol                     []Violation
+	witness                  any
+	nontrivial               []uint64
+	samples                  []any
+	wantSample               bool
+}
+
+// Fail records a violation with a witness (any JSON-serializable value).
+func (c *Ctx) Fail(v Violation, witness any) {
+	c.viol = append(c.viol, v)
+	if c.witness == nil {
+		c.witness = witness
+	}
+}
+
+// NonTrivial marks the case (identified by hash) as non-trivial by the property's rule.
+func (c *Ctx) NonTrivial(hash uint64) { c.nontrivial = append(c.nontrivial, hash) }
+
+// Sample offers a sample for the evidence file (kept for the first cases only).
+func (c *Ctx) Sample(x any) {
+	if c.wantSample && len(c.samples) < 2 {
+		c.samples = append(c.samples, x)
+	}
+}
+
+// WantSample reports whether a sample would be kept.
+func (c *Ctx) WantSample() bool { return c.wantSample && len(c.samples) < 2 }
+
+// RepViolation is a violation in a child report.
+type RepViolation struct {
+	Case    int    `json:"case"`
+	Kind    string `json:"kind"`
+	Msg     string `json:"msg"`
+	Witness string `json:"witness"`
+}
+
+// Report is what a child writes.
+type Report struct {
+	Prop        string         `json:"prop"`
+	Flavor      string         `json:"flavor"`
+	Mode        string         `json:"mode"`
+	Tier        string         `json:"tier"`
+	Seed        uint64         `json:"seed"`
+	From        int            `json:"from"`
+	Cases       int            `json:"cases"`
+	Evaluations int            `json:"evaluations"`
+	NonTrivial  []uint64       `json:"nontrivial"`
+	Cov         *Cov           `json:"cov"`
+	Samples     []any          `json:"samples"`
+	Violations  []RepViolation `json:"violations"`
+	Hooks       bool           `json:"hooks"`
+	Done        bool           `json:"done"`
+}
+
+// Witness is the replay file format.
+type Witness struct {
+	Prop      string      `json:"prop"`
+	Flavor    string      `json:"flavor"`
+	Mode      string      `json:"mode"`
+	Tier      string      `json:"tier"`
+	Seed      uint64      `json:"seed"`
+	Case      int         `json:"case"`
+	Violation []Violation `json:"violation"`
+	Detail    any         `json:"detail,omitempty"`
+}
+
+// CaseFns maps property IDs to their case runner.
+var CaseFns = map[string]func(c *Ctx){}
+
+// ReplayDir is where witnesses are written.
+var ReplayDir = "/verif/replays"
+
+// Args of the child binary.
+type Args struct {
+	Prop, Tier, Flavor, Mode, Out, Replay string
+	Seed                                  uint64
+	From, Cases                           int
+}
+
+func runCase(a *Args, fn func(c *Ctx), i int, wantSample bool) *Ctx {
+	c := &Ctx{Prop: a.Prop, Tier: a.Tier, Flavor: a.Flavor, Mode: a.Mode, Seed: a.Seed, Case: i,
+		R: NewRng(a.Seed, HashStr(a.Prop), HashStr(a.Mode), uint64(i)), Cov: NewCov(), wantSample: wantSample}
+	fn(c)
+	return c
+}
+
+// DrvMain is the entry point of the child binary.
+func DrvMain(a *Args) int {
+	fn, ok := CaseFns[a.Prop]
+	if !ok {
+		fmt.Fprintf(os.Stderr, "unknown property %s\n", a.Prop)
+		return 2
+	}
+	if a.Replay != "" {
+		b, err := os.ReadFile(a.Replay)
+		if err != nil {
+			fmt.Fprintln(os.Stderr, err)
+			return 2
+		}
+		var w Witness
+		if err := json.Unmarshal(b, &w); err != nil {
+			fmt.Fprintln(os.Stderr, err)
+			return 2
+		}
+		a.Prop, a.Mode, a.Tier, a.Seed = w.Prop, w.Mode, w.Tier, w.Seed
+		fn = CaseFns[a.Prop]
+		c := runCase(a, fn, w.Case, false)
+		if len(c.viol) == 0 {
+			fmt.Printf("replay of %s: case %d did not violate property %s on this tree\n", a.Replay, w.Case, a.Prop)
+			return 0
+		}
+		for _, v := range c.viol {
+			fmt.Printf("replay: property=%s case=%d step=%d kind=%s\n  %s\n  op=%s\n", a.Prop, w.Case, v.Step, v.Kind, v.Msg, v.Op)
+		}
+		return 1
+	}
+	rep := &Report{Prop: a.Prop, Flavor: a.Flavor, Mode: a.Mode, Tier: a.Tier, Seed: a.Seed, From: a.From, Cases: a.Cases, Cov: NewCov(), Hooks: HooksOn}
+	seen := map[uint64]bool{}
+	for i := a.From; i < a.From+a.Cases; i++ {
+		if a.Out != "" {
+			os.WriteFile(a.Out+".progress", []byte(strconv.Itoa(i)), 0o644)
+		}
+		c := runCase(a, fn, i, len(rep.Samples) < 2)
+		rep.Evaluations++
+		rep.Cov.Merge(c.Cov)
+		for _, h := range c.nontrivial {
+			if !seen[h] {
+				seen[h] = true
+				rep.NonTrivial = append(rep.NonTrivial, h)
+			}
+		}
+		rep.Samples = append(rep.Samples, c.samples...)
+		if len(c.viol) > 0 {
+			w := Witness{Prop: a.Prop, Flavor: a.Flavor, Mode: a.Mode, Tier: a.Tier, Seed: a.Seed, Case: i, Violation: c.viol, Detail: c.witness}
+			path := filepath.Join(ReplayDir, fmt.Sprintf("%s-%s-%s-%d-%d.json", a.Prop, a.Flavor, orDash(a.Mode), a.Seed, i))
+			os.MkdirAll(ReplayDir, 0o755)
+			b, _ := json.MarshalIndent(w, "", " ")
+			os.WriteFile(path, b, 0o644)
+			v := c.viol[0]
+			msg := v.Msg
+			if len(msg) > 1500 {
+				msg = msg[:1500] + "..."
+			}
+			rep.Violations = append(rep.Violations, RepViolation{Case: i, Kind: v.Kind, Msg: msg, Witness: path})
+			if len(rep.Violations) >= 20 {
+				break
+			}
+		}
+	}
+	rep.Done = true
+	sort.Slice(rep.NonTrivial, func(i, j int) bool { return rep.NonTrivial[i] < rep.NonTrivial[j] })
+	b, _ := json.Marshal(rep)
+	if a.Out != "" {
+		if err := os.WriteFile(a.Out, b, 0o644); err != nil {
+			fmt.Fprintln(os.Stderr, err)
+			return 2
+		}
+	} else {
+		os.Stdout.Write(b)
+	}
+	return 0
+}
+
+func orDash(s string) string {
+	if s == "" {
+		return "-"
+	}
+	return s
+}
+
+// SessWitness is the witness detail of a session-based case.
+type SessWitness struct {
+	Cfg Cfg   `json:"cfg"`
+	Ops []*Op `json:"ops"`
+}
+
+// FailSess reports the violations of a session.
+func (c *Ctx) FailSess(s *Sess) {
+	for _, v := range s.Viol {
+		c.Fail(v, SessWitness{Cfg: s.Cfg, Ops: s.Log})
+	}
+}
+
+// SampleSess offers the first ops of a session as sample.
+func (c *Ctx) SampleSess(s *Sess) {
+	if !c.WantSample() {
+		return
+	}
+	n := len(s.Log)
+	if n > 12 {
+		n = 12
+	}
+	ops := []string{}
+	for _, o := range s.Log[:n] {
+		ops = append(ops, o.String())
+	}
+	c.Sample(map[string]any{"case": c.Case, "types": len(s.Cfg.Types), "used_ids": s.Cfg.Used, "capinc": s.Cfg.CapInc, "ops_total": len(s.Log), "first_ops": ops})
 }
